@@ -101,8 +101,21 @@ def check(run: common.Run, drv: common.Driver, rng: random.Random, tier: str, fo
 
 def _chunk(run, drv, rng, sc, start: int, count: int, focus: str, cli_budget: int) -> None:
     cases = []
+    corpus = F.corpus_programs() if start == 0 else []
     for k in range(start, start + count):
         g = F.FrontGen(rng)
+        if corpus:
+            import copy as _copy
+            files, main = _copy.deepcopy(corpus.pop(0))
+            expect, trad = None, False
+            d = sc.path(f"q{k}")
+            os.makedirs(d)
+            texts = {}
+            for f in files:
+                texts[f["name"]] = F.print_file(f, rng)
+                open(os.path.join(d, f["name"]), "w").write(texts[f["name"]])
+            cases.append((k, d, files, main, trad, expect, texts, run_real(d, main, trad)))
+            continue
         files, main = g.program()
         expect = None
         trad = False
